@@ -5,6 +5,7 @@ import (
 	"math"
 	"math/big"
 
+	"github.com/gcash/bchd/bchec"
 	"github.com/gcash/bchutil/hdkeychain"
 )
 
@@ -329,6 +330,11 @@ func runC05(c *Ctx) {
 				q[by] ^= byte(1 + r.Intn(255))
 				parse(base58Ref(q))
 			}
+			if len(full) == 82 {
+				for _, q := range checksumForgeries(full) {
+					parse(base58Ref(q))
+				}
+			}
 			// non-ASCII twins: a character replaced by the code point 0x100, 0x200, ... above it (a decoder that
 			// truncates runes to bytes reads the original character), and multi-byte characters
 			for t := 0; t < 6; t++ {
@@ -386,6 +392,16 @@ func runC05(c *Ctx) {
 				parse(b58WithChecksum(q))
 			}
 			parse(b58WithChecksum(append([]byte{0}, p...)))
+			// a complete valid serialisation (with ITS checksum) behind extra leading bytes, or in front of extra trailing
+			// ones: a decoder that loses bytes at either end of a long number sees the valid 82 bytes
+			if full := refB58Decode(s); len(full) == 82 {
+				for _, pre := range [][]byte{{1}, {2}, {0xff}, {1, 0}, {0xff, 0xff}, {0, 1}} {
+					parse(base58Ref(append(append([]byte{}, pre...), full...)))
+				}
+				for _, suf := range [][]byte{{0}, {1}, {0xff}, {0, 0}} {
+					parse(base58Ref(append(append([]byte{}, full...), suf...)))
+				}
+			}
 			parse("1" + s)
 			parse(s + "1")
 			parse(s[:len(s)-1])
@@ -450,6 +466,9 @@ func runC06(c *Ctx) {
 					q[bit/8] ^= 1 << uint(bit%8)
 					c.Call(Event{"op": "WifDecode", "s": str(base58Ref(q))})
 				}
+				for _, q := range checksumForgeries(d) {
+					c.Call(Event{"op": "WifDecode", "s": str(base58Ref(q))})
+				}
 			}
 		}
 	}
@@ -480,10 +499,11 @@ func runC06(c *Ctx) {
 	}
 	// keys whose public point has an X coordinate with a leading zero byte (planner search over small scalars)
 	found := 0
-	for v := int64(1); v < 20000 && found < c.Pick(3, 12); v++ {
+	for v := int64(1); v < 20000 && found < c.Pick(6, 16); v++ {
 		kb := make([]byte, 32)
 		big.NewInt(v).FillBytes(kb)
-		if pub := ecBase(kb); len(pub) == 33 && pub[1] == 0 {
+		_, pubk := bchec.PrivKeyFromBytes(bchec.S256(), kb)
+		if pub := ecBase(kb); len(pub) == 33 && (pub[1] == 0 || pubk.SerializeUncompressed()[33] == 0) { // X or Y with a leading zero byte
 			found++
 			for _, comp := range []bool{true, false} {
 				c.Call(Event{"op": "Wif", "key": ints(kb), "net": 1 + found%len(nets), "compressed": comp})
